@@ -137,9 +137,10 @@ def loaded_baskets(offs, a, b):
     return out
 
 
-def drive(br, interp, events, parts, a, b):
+def drive(br, interp, events, parts, a, b, native=None):
     """events: list of byte strings (one per entry); parts: basket sizes.  Decode every basket uproot would load for [a,b)
-    with a fresh basket_array call, then final_array.  -> (array, asked keys, per-basket offsets lists)"""
+    with a fresh basket_array call, then final_array.  -> (array, asked keys, per-basket offsets lists).
+    native = (file handle, op, tag list): also write each decoded basket as a request line for the native C++ driver"""
     offs = [0]
     for n in parts:
         offs.append(offs[-1] + n)
@@ -156,6 +157,10 @@ def drive(br, interp, events, parts, a, b):
         except Exception:
             boffs[i] = None
         dict.__setitem__(arrs, i, arr)
+        if native is not None and boffs[i] is not None:
+            fh, op, index, tag = native
+            fh.write(f"{op} {data.tobytes().hex() or '-'} {len(bo)} " + " ".join(str(int(x)) for x in bo) + "\n")
+            index.append({**tag, "basket": i, "offsets": boffs[i], "has_y": "m_recPositionY" in (lay.content.fields or [])})
     out = interp.final_array(arrs, a, b, offs, LIB, br, {})
     return out, arrs.asked, boffs
 
@@ -220,6 +225,8 @@ def run_file(datadir, fname, cases):
     full = {}
     for k, br, p in regs:
         full[k] = br.array()
+    native_index = []
+    native_fh = open(cases["native_requests"], "w") if cases.get("native_requests") else None
 
     # (b) every interval 0 <= a < b <= n vs the slice of the full read
     for k, br, p in regs:
@@ -299,8 +306,11 @@ def run_file(datadir, fname, cases):
         for ci, c in enumerate(bc["repart"]):
             parts, a, b = c["parts"], c["a"], c["b"]
             case("repart", k, parts, a, b)
+            nat = None
+            if native_fh is not None and c.get("native") and bc["kind"] in ("toa", "cgem"):
+                nat = (native_fh, "T" if bc["kind"] == "toa" else "G", native_index, {"branch": k, "kind": "repart", "i": ci})
             try:
-                got, asked, boffs = drive(br, interp, events, parts, a, b)
+                got, asked, boffs = drive(br, interp, events, parts, a, b, nat)
             except Exception as ex:  # noqa: BLE001
                 mm("repart-exception", k, [parts, a, b], {"type_equal": False, "values_equal": False,
                                                            "got_type": type(ex).__name__ + ": " + str(ex)[:300]})
@@ -332,7 +342,10 @@ def run_file(datadir, fname, cases):
                 if key1 not in one_cache:
                     one_cache[key1] = drive(br, interp, evs, [len(evs)], 0, len(evs))[0]
                 one = one_cache[key1]
-                got, asked, boffs = drive(br, interp, evs, parts, a, b)
+                nat = None
+                if native_fh is not None and c.get("native") and kind in ("toa", "cgem"):
+                    nat = (native_fh, "T" if kind == "toa" else "G", native_index, {"branch": k, "kind": "synth", "i": ci})
+                got, asked, boffs = drive(br, interp, evs, parts, a, b, nat)
             except Exception as ex:  # noqa: BLE001
                 mm("synth-exception", k, [layout, parts, a, b], {"type_equal": False, "values_equal": False,
                                                                   "got_type": type(ex).__name__ + ": " + str(ex)[:300]})
@@ -360,8 +373,10 @@ def run_file(datadir, fname, cases):
                 d["all_empty_basket_selected"] = any(all(layout[j] < 0 for j in range(offs[i], offs[i + 1])) for i in sel)
                 mm("synth", k, [layout if len(layout) <= 40 else layout[:40] + ["...", len(layout)], parts, a, b], d)
             repart.append(rec)
+    if native_fh is not None:
+        native_fh.close()
     return {"file": fname, "n": n, "mismatches": mism, "evaluations": n_eval, "hashes": hashes, "repart": repart,
-            "chunk_lens": chunk_lens, "pybes3": pybes3.__file__}
+            "chunk_lens": chunk_lens, "pybes3": pybes3.__file__, "native_index": native_index}
 
 
 def run_concat(datadir, cases):
